@@ -26,6 +26,12 @@ def run(ctx):
     C.proof_step(ctx, ['python-engineio client contract (DESIGN §4) as the environment of the client model',
                        'json.loads on server frames enters the model as a finite table from the real json.loads'])
     K.run_check(ctx, 'c08', ('C08',), RULE, nontrivial)
+    if ctx.thorough:
+        ok, out = C.leanchecker(['Sio.Props.C08'])
+        ctx.notes.append('leanchecker Sio.Props.C08: %s' % ('ok' if ok else 'FAILED'))
+        if not ok:
+            ctx.violation('proof', 'leanchecker rejected Sio.Props.C08: ' + out, {'theorem_or_build': out},
+                          no_input=True)
 
 
 def replay(ctx, r):
